@@ -27,6 +27,8 @@ def data_carriers(case):
         cars = [c for c in cars if c not in ("nd_obj", "series_obj")]
     if vals and all(v is not None and v.denominator == 1 for v in vals) and not case.get("as_time"):
         cars.append("nd_i8")
+        if all(0 <= v < 65536 for v in vals):
+            cars.append("nd_u2")
     return cars
 
 
@@ -89,7 +91,7 @@ def run(out: Outcome, drv):
     out.rule = ("for every test: generated logical case (valid parameters), delivered through every supported data carrier (list / tuple "
                 "with None or NaN, float64 / float32 / int64 / object arrays, masked arrays with NaN or with a FINITE number under the "
                 "mask, Series with default / non-default index / object dtype, dask array, list holding np.ma.masked), every time carrier "
-                "(datetime64 ns/s/ms, python datetimes, Timestamps, DatetimeIndex and Series naive or UTC-aware, epoch ints / floats) "
+                "(datetime64 ns/s/ms, python datetimes, Timestamps, DatetimeIndex and Series naive or UTC-aware stored in ns / us / ms / s, epoch ints / floats) "
                 "and list vs tuple parameter spans; all observations of one logical case go to IoosQc.C15.holds; "
                 "non-trivial = >= 2 distinct flags")
     for fn in gen.GENERATORS:
